@@ -44,6 +44,7 @@ EXPLANATION = (
     "(c) that resampling indices drawn over a cluster-local range only subscript the cluster-local array. "
     "Per-coordinate scaling, permutation equivariance, bounding-box containment, SPD-ness and parameter recovery are "
     "numerical statements over all data sets and are not decided."
+    " Also (h) the location the iteration starts from, returned unchanged in the Gaussian limit, is built on a per-coordinate order statistic, and (i) the fitted location and scale reach the constructor through value-preserving steps only, every per-mode entry being that iteration's own fit."
 )
 ASSUMPTIONS = ["np.cov/np.var are homogeneous of degree 2, np.median/np.mean of degree 1, np.linalg.solve(A, b) of degree deg(b) - deg(A)",
                "scipy.optimize.bisect returns a root inside its bracket"]
